@@ -378,6 +378,31 @@ def D14():
     return f
 
 
+def D15():
+    """C10: unicode line/paragraph separators in names and creator fields"""
+    f = []
+    with tempdir() as d:
+        r = _root(d, "ro\u2028ot")
+        mk(r, {"a\u2028b.txt": "x", "s/c\u2029d.txt": "y", "plain.txt": "z"})
+        x = run("create", [r, "-h", "md5", "--comment", "line\u2028sep", "--location", "p\u2029q"], NOW)
+        m = rt.read_manifest(_last_manifest(r))
+        paths = sorted(rec["path"] for rec in m["records"])
+        if paths != sorted(["a\u2028b.txt", "s", "s/c\u2029d.txt", "plain.txt"]):
+            f.append(f"paths with U+2028/U+2029 are written as {paths!r}")
+        if m["creatorinfo"].get("comment") != "line\u2028sep" or m["creatorinfo"].get("location") != "p\u2029q":
+            f.append(f"creator fields with U+2028/U+2029 are written as {m['creatorinfo'].get('comment')!r} / {m['creatorinfo'].get('location')!r}")
+        x = run("verify", [r], NOW)
+        if x.exit != 0:
+            f.append(f"verify on the unchanged tree with such names: exit {x.exit}")
+        ch = rt.read_chain(os.path.join(r, "ascmhl", "ascmhl_chain.xml"))
+        if ch[0]["path"] != os.path.basename(_last_manifest(r)):
+            f.append(f"chain entry path {ch[0]['path']!r} differs from the manifest name {os.path.basename(_last_manifest(r))!r}")
+        x = run("info", [r], NOW)
+        if x.exit != 0:
+            f.append(f"info afterwards: exit {x.exit} {x.exc}")
+    return f
+
+
 ALL = {
     k: v
     for k, v in list(globals().items())
